@@ -38,6 +38,16 @@ def run(ctx):
     for v in ctx.violations[nv:]:
         v["rule"] = "C02.R7(" + v["rule"] + ")"
         v["key"] = "C02.R7|" + v["key"]
+    # R9 = C03.S1b / R10 = C12.U2: nothing but push's own board surgery changes the board while a move is played (no table swap or
+    # re-seating reachable from push), and the promotion piece a move text names is the piece that is placed
+    from . import p03, p17
+    from .common import discr_map as _dm
+    before, nv = len(ctx.instances), len(ctx.violations)
+    p03.s1b(ctx, F)
+    p17.relabel(ctx, before, nv, "C02.R9")
+    before, nv = len(ctx.instances), len(ctx.violations)
+    p12.u2(ctx, F, _dm(F))
+    p17.relabel(ctx, before, nv, "C02.R10")
     # R8 = the writer half of C11: the property is observed through Game::fen() (fields 1-4), which must render the state push left
     before, nv = len(ctx.instances), len(ctx.violations)
     p11._FACTS[0] = F
